@@ -526,3 +526,28 @@ Definition ex_q_text : text :=
   ++ bs ";anchor=swh:1:rev:" ++ ex_hex ++ bs ";path=/%00%FF%3Bx%20y;lines=5-10".
 
 (* last key wins; an earlier malformed duplicate is not looked at *)
+
+(* ---------------------------------------------------------------- namespace / scheme_version given explicitly
+   _BaseSWHID(namespace=ns, scheme_version=ver, ...).  None = the keyword is
+   left at its default.  attrs runs every converter while assigning (the enum
+   converter ObjectType(ty) is the only one that can fail here), then the
+   validators in attribute order: check_namespace, check_scheme_version,
+   check_object_id (base class first), then the subclass's. *)
+Definition nv_bad (ns : option text) (ver : option Z) : bool :=
+  match ns with Some n => negb (beqb n SWHID_NAMESPACE) | None => false end
+  || match ver with Some z => negb (Z.eqb z SWHID_VERSION) | None => false end.
+
+Definition mk_simple_nv (enum : list text) (ns : option text) (ver : option Z) (ty : text) (oid : bytes)
+  : result core :=
+  if negb (mem_bytes ty enum) then Err EValue
+  else if nv_bad ns ver then Err EValidation
+  else mk_simple enum ty oid.
+Definition mk_core_nv := mk_simple_nv (enum_values OBJECT_TYPES).
+Definition mk_ext_nv := mk_simple_nv (enum_values EXTENDED_OBJECT_TYPES).
+
+Definition mk_q_nv (ns : option text) (ver : option Z) (ty : text) (oid : bytes) (origin : option text)
+                   (visit anchor : option core) (path : option bytes) (lines : option (Z * option Z))
+  : result qualified :=
+  if negb (mem_bytes ty (enum_values OBJECT_TYPES)) then Err EValue
+  else if nv_bad ns ver then Err EValidation
+  else mk_q ty oid origin visit anchor path lines.
